@@ -28,6 +28,13 @@ def conditions(tier, seed):
                 continue      # the second fixture has no component
             out.append(Cond('%s_%s' % (fx, n), 'c14_comp.py', dict(edit=n, fixture=fx), func=f, timeout=t,
                             bound='%s: %s' % (fx, b), symbolic=s, case_split=c, realised=['model text (PLY, outside the tracer)']))
+    if tier == 'thorough':
+        # edit scripts of length two: the edit, then any attribute renamed, then the extraction
+        for n, f, b in (('mult_cond', 'check_mult_cond2', 'Mult / Cond of every association end'), ('retype', 'check_retype2', 'retype of every base attribute to 10 types'),
+                        ('reorder', 'check_reorder2', 'swap in the R103 chain'), ('identifier', 'check_identifier2', 'attribute added to the second identifier')):
+            out.append(Cond('Simple_Model_%s_then_rename' % n, 'c14_comp.py', dict(edit=n + '+rename', fixture='Simple_Model'), func=f, timeout=t,
+                            bound='Simple_Model: %s, THEN any attribute renamed (edit scripts of length 2)' % b,
+                            case_split=['first edit site', 'si2'], realised=['model text (PLY, outside the tracer)'], twin=False))
     for sh in range(8):
         out.append(Cond('synth_s%d' % sh, 'c14_synth.py', dict(shard=sh, nshards=8), timeout=t,
                         bound='6 synthesised class diagrams (subtype hierarchy, association classes, compound identifiers whose referential names sort differently from the identifying names, reflexive association with phrases, several core types, two identifiers) x 16 Mult/Cond combinations x 4 row orders (shard %d/8)' % sh,
